@@ -36,14 +36,14 @@ Members(i) == {j \in 1..(i - 1) : cls[i].rel[j] \in {"member", "arrmember"}}
 FromDerived(s) == s \in {"pub", "prot"}
 FromOutside(s) == s = "pub"
 
-RECURSIVE DtorState(_), DefCtorState(_), CopyCtorState(_), AbstractF(_), HasVirtualF(_), Polymorphic(_), VirtDtor(_)
+RECURSIVE DtorState(_), DefCtorState(_), CopyCtorState(_), HasVirtualF(_), Polymorphic(_), VirtDtor(_)
 
 ImplDtDeleted(i) ==
   \/ \E b \in Bases(i) : ~FromDerived(DtorState(b))
   \/ \E m \in Members(i) : ~FromOutside(DtorState(m))
 
 DtorState(i) == LET c == cls[i] IN
-  CASE c.dt = "user" -> c.dtacc
+  CASE c.dt \in {"user", "pure"} -> c.dtacc        \* "pure": virtual ~T() = 0; (user-declared)
     [] c.dt = "delete" -> "deleted"
     [] c.dt = "default" -> IF ImplDtDeleted(i) THEN "deleted" ELSE c.dtacc
     [] c.dt = "none" -> IF ImplDtDeleted(i) THEN "deleted" ELSE "pub"
@@ -78,10 +78,15 @@ CopyCtorState(i) == LET c == cls[i] IN
 \* one virtual function name f: "virt" declares it, "pure" declares it pure, "over" overrides,
 \* "none" does not mention it
 HasVirtualF(i) == cls[i].vf \in {"virt", "pure"} \/ \E b \in Bases(i) : HasVirtualF(b)
-AbstractF(i) ==
+\* abstract through the virtual function f (inherited unless overridden) ...
+RECURSIVE AbsViaF(_)
+AbsViaF(i) ==
   CASE cls[i].vf = "pure" -> TRUE
     [] cls[i].vf \in {"virt", "over"} -> FALSE
-    [] OTHER -> \E b \in Bases(i) : AbstractF(b)      \* "none", and "overc": f() const overloads, it does not override
+    [] OTHER -> \E b \in Bases(i) : AbsViaF(b)      \* "none", and "overc": f() const overloads, it does not override
+\* ... or through its own pure virtual destructor, which every derived class overrides (implicitly
+\* or explicitly), so it never propagates
+AbstractF(i) == cls[i].dt = "pure" \/ AbsViaF(i)
 Polymorphic(i) ==
   \/ cls[i].vf \in {"virt", "pure"} \/ cls[i].dtvirt
   \/ \E b \in Bases(i) : Polymorphic(b)
@@ -100,7 +105,7 @@ Verdict(i) == [abs |-> AbstractF(i), poly |-> Polymorphic(i), dc |-> CanNew(i),
 D0 == <<"none", "pub">>
 T0 == <<"none", "pub", FALSE>>
 DCs == {D0} \cup ({"user", "default", "delete"} \X Acc)
-DTs == {T0} \cup ({"user", "default", "delete"} \X Acc \X BOOLEAN)
+DTs == {T0} \cup ({"user", "default", "delete"} \X Acc \X BOOLEAN) \cup ({"pure"} \X Acc \X {TRUE})
 MCs == {"none", "user", "delete"}
 
 MkO(d, c, m, t, ci, rf, v, r, o) ==
